@@ -2,7 +2,7 @@
    Only statements, each closed by `exact`, with Print Assumptions beneath.
    P = the expected IR (Chan/Expected.v) which every run re-checks against the IR translated
    from the freshly generated derived.gen.go. *)
-From Coq Require Import List.
+From Coq Require Import List NArith.
 Import ListNotations.
 From Verif Require Import Chan.Sem Chan.Expected Chan.Lemmas Chan.FmapProofs Chan.DupProofs Chan.JoinCC Chan.JoinCCLive Chan.JoinSl Chan.JoinSlLive Chan.Explore Chan.Bounded.
 
